@@ -362,6 +362,7 @@ var c08Nodial = [][2]string{
 	{"", "127.0.0.1:99999"},                         // invalid port
 	{"unixgram", "/proc/vh-c08-nonexistent/p.sock"}, // connect: no such file or directory
 	{"vh-no-such-network", ""},                      // unknown network
+	{"", ""},                                        // the dialer's Control hook reports EMFILE: a dial error that calls itself temporary
 }
 
 // vanishReader is the peer of the vanish scenario: it takes the first datagram, then the socket is closed and its
@@ -507,7 +508,12 @@ func runC08(sc *c08scenario) c08obs {
 	}
 	var callStarted atomic.Bool
 	var start time.Time
+	dialRefused := sc.peer == "nodial" && sc.variant == 4
 	client.Dialer.Control = func(network, address string, c syscall.RawConn) error {
+		if dialRefused {
+			// (too many open files - as often as the dial is tried: "or with the network error", not "try again")
+			return syscall.EMFILE
+		}
 		if dialDelay > 0 {
 			time.Sleep(dialDelay)
 		}
